@@ -180,8 +180,8 @@ class C09(Check):
                                   "W": rng.choice([1, 2, 4]), "thr": rng.choice([64, 4096]), "seed": rng.randrange(1, 1 << 30)}, "timeout": 8, "multi": True})
         # numeric arguments at the edge of the double range: finite transforms whose results stay finite (coordinates up to
         # 1.7e308) followed by an operation that has to compute with them
-        for body in EXTREME:
-            prio.append({"flavour": "ser-asan", "kind": "prog", "args": {"prog": body}, "timeout": 60})
+        for body in reversed(EXTREME):  # ten cheap jobs, first in the queue so that no budget cuts them off
+            prio.insert(0, {"flavour": "ser-asan", "kind": "prog", "args": {"prog": body}, "timeout": 60})
         rng.shuffle(jobs)
         jobs = prio + prio_par + jobs
         self.stats["smoke_range_jobs"] = len(prio)
